@@ -287,9 +287,32 @@ class SymDA:
         ext[d] = new
         cid = dict(self._cid)
         cid[d] = ("prefix", self._cid.get(d), new.name)
-        if isinstance(self._cid.get(d), tuple) and self._cid[d][0] == "range":
+        if isinstance(self._cid.get(d), tuple) and self._cid[d][0] == "blocks" and self._cid[d][3] == new.name:
+            cid[d] = self._cid[d][1]
+        elif isinstance(self._cid.get(d), tuple) and self._cid[d][0] == "range":
             cid[d] = ("range", self._cid[d][1], new.name)
         return self._new(t, None, ext, cid, tags=self.tags & {"desc", "asc", "nonneg"}, view=True)
+
+    def _suffix(self, d, start):
+        """x.isel(d=slice(start, None)): the trailing rows as a row-window isometry W (W^H W = I, E^H W = 0 for the leading block)"""
+        old = self._ext[d]
+        a = zl(start)
+        if decide(a <= 0):
+            return self
+        if not decide(a <= old.z):
+            raise Unsupported("slice start beyond the extent")
+        new = ext_of(z3.simplify(old.z - a))
+        lead = ext_of(z3.simplify(a))
+        W = block_tail(old, lead, new)
+        t = self._side(d, W)
+        ext = dict(self._ext)
+        ext[d] = new
+        cid = dict(self._cid)
+        cid[d] = ("suffix", self._cid.get(d), lead.name)
+        c0 = self._cid.get(d)
+        if isinstance(c0, tuple) and c0[0] == "blocks" and c0[3] == lead.name:
+            cid[d] = c0[2]
+        return self._new(t, None, ext, cid, view=True)
 
     def conj(self):
         return self._new(tm.conj(self.term)) if self.cplx else self
@@ -464,6 +487,8 @@ class SymDA:
                 r = r._prefix(d, v.stop)
             elif type(v) is slice and v.start in (0, None) and v.step is None:
                 r = r._prefix(d, v.stop)
+            elif type(v) is slice and v.step is None and v.stop is None:
+                r = r._suffix(d, v.start)
             else:
                 raise Unsupported(f"isel with {type(v).__name__}")
         return r
@@ -807,6 +832,21 @@ class NDView:
         raise Unsupported("ndarray view has no attribute " + k)
 
 
+def block_tail(total, lead, tail):
+    """the (total x tail) isometry selecting the rows after the leading `lead` ones; hypotheses recorded once per context"""
+    name = f"Tail[{lead.name}:{total.name}]"
+    W = tm.sym(name, total, tail, ("real",))
+    c = ctx()
+    done = c.notes.setdefault("block_tail", set())
+    if name not in done:
+        done.add(name)
+        E = tm.sel(total, lead)
+        c.hyps += [(tm.mul(tm.Tr(W), W), tm.I(tail), "tail block is an isometry"),
+                   (tm.mul(tm.Tr(E), W), tm.Z(lead, tail), "leading and trailing blocks are orthogonal"),
+                   (tm.mul(tm.Tr(W), E), tm.Z(tail, lead), "leading and trailing blocks are orthogonal (transposed)")]
+    return W
+
+
 class Argsort:
     """result of argsort along a dim (descending if rev): a permutation with a contract"""
 
@@ -959,7 +999,23 @@ class XRFacade:
         return stub(func, args, input_core_dims or [()] * len(args), list(output_core_dims), dict(kwargs or {}))
 
     def concat(self, objs, dim=None, **kw):
-        raise Unsupported("xr.concat")
+        """two labelled matrices stacked along an existing dim (block matrix  E A + W B)"""
+        objs = list(objs)
+        if len(objs) != 2 or kw or not all(isinstance(o, SymDA) for o in objs):
+            raise Unsupported("xr.concat variant")
+        A, B = objs
+        if dim not in A.dims or dim not in B.dims or set(A.dims) != set(B.dims) or len(A.dims) != 2:
+            raise Unsupported("xr.concat along a new dimension / of non-matrices")
+        (other,) = [d for d in A.dims if d != dim]
+        if not cid_equal(A._cid.get(other), B._cid.get(other)) or not same_ext(A._ext[other], B._ext[other]):
+            raise Unsupported("xr.concat of operands whose other coordinate differs (outer join)")
+        At, Bt = A.transpose(dim, other), B.transpose(dim, other)
+        ea, eb = At._ext[dim], Bt._ext[dim]
+        tot = ext_of(z3.simplify(ea.z + eb.z))
+        W = block_tail(tot, ea, eb)
+        term = tm.add(tm.mul(tm.sel(tot, ea), At.term), tm.mul(W, Bt.term))
+        cid = {dim: ("blocks", A._cid.get(dim), B._cid.get(dim), ea.name), other: A._cid.get(other)}
+        return SymDA(term, (dim, other), {dim: tot, other: At._ext[other]}, cid, A.cplx or B.cplx, A.lazy or B.lazy)
 
     def __getattr__(self, k):
         raise Unsupported("xr." + k)
